@@ -310,3 +310,27 @@ prop("C09",
                 "recorded as a known finding with its own signature; releases within the window must be harmless and are judged.",
      technique="runtime monitoring of per-instance keyed streams/messages under frame replay and reordering (virtual time), multiset oracle on Accept; race detector",
      assumptions=["go1.26 testing/synctest virtual time"])
+
+prop("C11",
+     level="exploration",
+     parts=[{"engine": "tubes_hostile", "race": True, "max_cases_per_child": 12}],
+     floor={"quick": 5000, "thorough": 100000},
+     child_timeout={"quick": 1200, "thorough": 3400},
+     rule="(a) Two honest Muxers carry monitored keyed streams in both directions on one tube while 60-180 extra frames per case are "
+          "injected into one direction: all 64 flag combinations (plus undefined flag bits), tube ids unknown / live (a victim tube) "
+          "/ just closed, dataLength in {0, actual, actual-1, actual+1, 0x7FFF, 0x8000, 65523, 65524, 65535}, ack and frame numbers "
+          "in {0,1,2,3,1000,2^31,2^32-1,random}, datagrams shorter than the header and shorter than declared; REQ floods for all "
+          "2x256 ids (twice) with the acceptor running and absent. Oracle: no panic (process death is attributed to the case), the "
+          "monitored streams on the unrelated tube complete with correct bytes, both Stop calls return within 3 x muxerTimeout + "
+          "10 virtual seconds. (b) userauth.GetInitMsg, codex.GetCmd, codex.HandleSize (through a real reliable tube), "
+          "authgrants.ReadIntentRequest/ReadIntentCommunication/ReadConfOrDenial/ReadTargetInfo/ReadResponse, common.ReadString, "
+          "portforwarding.readPacket are fed valid encodings, prefixes followed by end of input, boundary length fields, byte "
+          "mutations, random strings; oracle: the decoder returns, or blocks only while awaiting more input and returns once the "
+          "input ends, and TotalAlloc grows by at most 256 KiB + 64 x input length. Non-trivial = an injected frame consumed before a "
+          "judged progress/stop check, or a decoder input whose outcome was observed; distinct by construction or by input bytes.",
+     level_text="Exploration with enumerated boundary grids against the real muxers (virtual time, race detector) and the real "
+                "application decoders, with liveness/progress/termination and allocation monitors.",
+     level_note="Hostile frames may legitimately kill the tube they name; only other tubes are judged. Allocation is measured "
+                "process-wide (TotalAlloc) around the call, so the bound carries slack for the carrier tube.",
+     technique="hostile-frame and hostile-input fault injection with crash attribution, progress/termination monitors and allocation accounting; race detector",
+     assumptions=["go1.26 testing/synctest virtual time"])
